@@ -43,11 +43,55 @@ def cases(tier):
         sub = ts if (rs != "nojj" or tier == "thorough") else [t for t in ts if len(t) <= 36]
         for i in range(0, len(sub), 8):
             out.append({"k": "jinja", "rs": rs, "ts": sub[i : i + 8]})
+    # a template expression / bind parameter in every kind of place (comment, block comment, string, code, end of an
+    # over-long line) x every templater and placeholder style x {default, max_line_length = 30}
+    for tpl in PARAM:
+        for mll in (0, 30):
+            out.append({"k": "param", "tpl": tpl, "rs": "all", "mll": mll, "ss": [sh.replace("@P@", PARAM[tpl][0]) for sh in PARAM_SHAPES]})
     for kind, pieces in (("python", PY_PIECES), ("placeholder", PH_PIECES)):
         ss = sorted({"".join(tup) for k in range(1, 4) for tup in itertools.product(pieces, repeat=k)}, key=lambda x: (len(x), x))
         for i in range(0, len(ss), 32):
             out.append({"k": kind, "rs": "all", "ss": ss[i : i + 32]})
     return out
+
+
+PARAM = {
+    "jinja": ("{{ v }}", None),
+    "python": ("{a}", None),
+    "colon": (":p", "p"),
+    "numeric_colon": (":1", "1"),
+    "pyformat": ("%(p)s", "p"),
+    "dollar": ("$p", "p"),
+    "flyway_var": ("${p}", "p"),
+    "question_mark": ("?", "1"),
+    "numeric_dollar": ("$1", "1"),
+    "percent": ("%s", "1"),
+    "ampersand": ("&p", "p"),
+}
+PARAM_SHAPES = [
+    "SELECT a FROM t WHERE a = @P@ -- rows after @P@ only\n",
+    "SELECT a, b FROM a_rather_long_table_name WHERE a_col = 1 -- keep @P@ here\n",
+    "SELECT a, b FROM a_rather_long_table_name WHERE a_col = @P@ -- keep @P@ here\n",
+    "SELECT a /* @P@ */ FROM t\n",
+    "SELECT a  /* @P@ */  FROM t  -- @P@\n",
+    "SELECT  '@P@' FROM t\n",
+    "SELECT a FROM t -- @P@\n",
+    "-- @P@\nselect a from t\n",
+    "select a from t where b = @P@ and c = @P@  -- @P@\n",
+    "SELECT a,@P@ FROM t WHERE a IN (@P@,@P@)  \n",
+    "SELECT a FROM t WHERE a = @P@",
+]
+
+
+def param_linter(case):
+    tpl, mll = case["tpl"], case.get("mll") or 0
+    core = {"max_line_length": mll} if mll else {}
+    if tpl == "jinja":
+        cfgs = {"core": core, "templater": {"jinja": {"context": {"v": "zz"}}}}
+        return sq.linter("ansi", "jinja", rules="all", configs=cfgs)
+    if tpl == "python":
+        return sq.linter("ansi", "python", rules="all", configs={"core": core, "templater": {"python": {"context": {"a": "zz"}}}})
+    return sq.linter("ansi", "placeholder", rules="all", configs={"core": core, "templater": {"placeholder": {"param_style": tpl, PARAM[tpl][1]: "zz"}}})
 
 
 def get_linter(kind, rs, ci):
@@ -95,7 +139,11 @@ def run_case(case):
                 continue
             res["n"] += 1
             one = {"k": kind, "rs": case["rs"], ("ts" if kind == "jinja" else "ss"): [text], "ctx": ci}
-            lnt = get_linter(kind, case["rs"], ci)
+            if kind == "param":
+                one.update({"tpl": case["tpl"], "mll": case.get("mll", 0)})
+                lnt = param_linter(case)
+            else:
+                lnt = get_linter(kind, case["rs"], ci)
 
             def add(clause, features, detail, _one=one):
                 res["fails"].append({"clause": clause, "features": features, "detail": detail, "case": _one})
